@@ -33,11 +33,15 @@ ZOk(r, e) ==
 \* "tainted" and only its result counts are judged.
 Tainted(e) == \E k \in 1..Len(e.bs) : IsNaN(e.bs[k])
 
+(* a tape without variables has no input columns, so a many-point evaluation cannot say how many samples are *)
+(* wanted and returns none: the slice clauses only apply when the tape reads at least one variable           *)
+NoVars(r) == \A k \in 1..Len(r.ssa) : r.ssa[k][1] # 1
 EvalFails(r, e) ==
-  IF Tainted(e) THEN (IF Len(e.pt) = r.nout /\ Len(e.sl) = r.nout THEN {} ELSE {"count"}) ELSE
-     (IF Len(e.pt) = r.nout /\ Len(e.sl) = r.nout /\ Len(e.ref) = r.nout THEN {} ELSE {"count"})
+  LET slOK == NoVars(r) \/ Len(e.sl) = r.nout IN
+  IF Tainted(e) THEN (IF Len(e.pt) = r.nout /\ slOK THEN {} ELSE {"count"}) ELSE
+     (IF Len(e.pt) = r.nout /\ slOK /\ Len(e.ref) = r.nout THEN {} ELSE {"count"})
   \cup (IF SeqSame(e.pt, e.ref) THEN {} ELSE {"point"})
-  \cup (IF SeqSame(e.sl, e.ref) THEN {} ELSE {"slice"})
+  \cup (IF NoVars(r) \/ SeqSame(e.sl, e.ref) THEN {} ELSE {"slice"})
   \cup (IF ZOk(r, e) THEN {} ELSE {"zvalue"})
 
 Fails(r) ==
@@ -49,10 +53,16 @@ Fails(r) ==
     \cup (IF r.err = "" THEN {} ELSE {"err"})
     \cup UNION {EvalFails(r, r.evals[k]) : k \in 1..Len(r.evals)}
 
+(* DAGs emitted by Flatten.tla and built through the real Context: the recorded SSA tape is, op for op, the tape the *)
+(* model of SsaTape::new predicts (implementation-shaped: a different but well-formed tape is drift, not a violation) *)
+Drift(r) == "flat" \in DOMAIN r /\ ~r.panic /\ r.flat.same_dag /\
+            (r.flat.model # r.flat.real \/ r.nch # r.flat.choices)
+
 Init == l = 1
 Next == /\ l <= Len(Rec)
         /\ l' = l + 1
         /\ LET f == Fails(Rec[l]) IN f = {} \/ PrintT(<<"REJECT", Rec[l].id, f>>)
+        /\ (~Drift(Rec[l]) \/ PrintT(<<"DRIFT", Rec[l].id>>))
 Spec == Init /\ [][Next]_vars
 Consumed == TLCGet("stats").diameter - 1 = Len(Rec) \/ PrintT(<<"UNCONSUMED", TLCGet("stats").diameter, Len(Rec)>>)
 ==============================================================================
